@@ -40,6 +40,7 @@ def register(reg):
     register_contains_object(reg)
     register_circumradius(reg)
     register_shape_circumradius(reg)
+    register_minimum_distance(reg)
 
 
 def hypot_of(eng, name, sqsum):
@@ -589,5 +590,117 @@ def register_shape_circumradius(reg):
             bounded=True,
             note="mesh of 2 vertices (symbolic coordinates)",
             properties=("C04", "C02"),
+        )
+    )
+
+
+# ===================================================================================================
+# Object.minimumDistanceTo: the planar fast path may only be taken when the planar distance IS the gap
+
+
+def register_minimum_distance(reg):
+    reg.trust("K9-prism-gap", "two planar boxes are right prisms P x I and Q x J (K-prism), whose gap is sqrt(dist(P, Q)^2 + dist(I, J)^2) with dist(I, J) = max(0, |z1 - z2| - (h1 + h2)/2); shapely's distance of the bounding polygons is dist(P, Q); occupiedSpace.minimumDistanceTo (FCL) is the exact gap")
+    OBJ = lambda: repo_class(f"{OT}:Object")
+
+    def mk(I, tag, planar, log):
+        eng = I.eng
+        o = PObj(OBJ(), tag=tag)
+        init_samplable(o)
+        pos = tuple(eng.fresh_real(f"{tag}.position.{c}") for c in "xyz")
+        h = eng.fresh_real(f"{tag}.height")
+        eng.assume(compare(">", h, 0))
+        eng.input_syms.append((f"{tag}.planar_box", C.Const(None), planar))
+        eng.input_syms.append((f"{tag}.position", C.TupleOf(C.Real(), C.Real(), C.Real()), pos))
+        eng.input_syms.append((f"{tag}.height", C.Real(), h))
+        poly = MS.make_geom(I, "Polygon", empty=False, tag=f"{tag}._boundingPolygon")
+
+        def pdist(other, *a, **k):
+            d = eng.fresh_real(f"{tag}._boundingPolygon.distance")
+            eng.assume(compare(">=", d, 0))
+            log.append(("polygon", poly, other, d))
+            return d
+
+        poly.fields["distance"] = BuiltinFn("distance", pdist)
+        space = PObj(RC("MeshVolumeRegion"), tag=f"{tag}.occupiedSpace")
+        init_samplable(space)
+
+        def sdist(other, *a, **k):
+            d = eng.fresh_real(f"{tag}.occupiedSpace.minimumDistanceTo")
+            eng.assume(compare(">=", d, 0))
+            log.append(("space", space, other, d))
+            return d
+
+        space.fields["minimumDistanceTo"] = BuiltinFn("minimumDistanceTo", sdist)
+        o.fields.update(_isPlanarBox=planar, position=make_vector(*pos), z=pos[2], height=h, _boundingPolygon=poly, occupiedSpace=space)
+        return o
+
+    def setup(I, env):
+        eng = I.eng
+        log = []
+        pa = eng.choose(2, "self is a planar box?") == 1
+        A = mk(I, "self", pa, log)
+        k = eng.choose(3, "other: planar box / other object / not an object")
+        B = mk(I, "other", k == 0, log) if k < 2 else 5
+        env.vars.update(self=A, other=B, _log=log, _k=k, _pa=pa)
+
+    def post(I, env, outcome):
+        eng = I.eng
+        oname = "object_types.Object.minimumDistanceTo"
+        A, B, log, k, pa = env.vars["self"], env.vars["other"], env.vars["_log"], env.vars["_k"], env.vars["_pa"]
+        if outcome[0] == "raise":
+            eng.check(f"{oname}#raises.TypeError.only_for_non_objects", k == 2)
+            return
+        eng.check(f"{oname}#raises.TypeError.must_for_non_objects", k != 2)
+        res = outcome[1]
+        eng.check(f"{oname}#ensures.exactly_one_distance_computation", len(log) == 1)
+        if len(log) != 1:
+            return
+        kind, g, o, d = log[0]
+        if kind == "polygon":
+            ok = pa and k == 0 and g is A.fields["_boundingPolygon"] and o is B.fields["_boundingPolygon"]
+            eng.check(f"{oname}#fastpath.only_for_two_planar_boxes_on_their_bounding_polygons", ok)
+            if ok:
+                za, zb = A.fields["position"].fields["coordinates"][2], B.fields["position"].fields["coordinates"][2]
+                dzabs = sv_ite(compare(">=", za, zb), arith("-", za, zb), arith("-", zb, za))
+                slack = arith("-", dzabs, arith("/", arith("+", A.fields["height"], B.fields["height"]), 2))
+                dz = sv_ite(compare(">", slack, 0), slack, 0)
+                # K9: the gap of the two prisms is sqrt(d^2 + dz^2); the planar distance is the gap only when dz = 0
+                eng.check(f"{oname}#fastpath.planar_distance_is_the_gap_of_the_solids", sv_and(compare("==", res, d), compare("==", dz, 0)))
+        else:
+            ok = g is A.fields["occupiedSpace"] and o is B.fields["occupiedSpace"]
+            eng.check(f"{oname}#default.exact_distance_of_the_occupied_spaces", ok and res is d)
+
+    def replay(inputs, clause):
+        import warnings
+
+        warnings.filterwarnings("ignore")
+        from scenic.core.object_types import Object
+        from scenic.core.vectors import Vector
+
+        if "fastpath" not in clause:
+            return None
+        try:
+            pa, pb = [float(x) for x in inputs["self.position"]], [float(x) for x in inputs["other.position"]]
+            ha, hb = float(inputs["self.height"]), float(inputs["other.height"])
+        except Exception:
+            return None
+        a = Object._with(position=Vector(*pa), width=1, length=1, height=ha)
+        b = Object._with(position=Vector(pa[0] + 3, pa[1], pb[2]), width=1, length=1, height=hb)
+        got = float(a.minimumDistanceTo(b))
+        exact = float(a.occupiedSpace.minimumDistanceTo(b.occupiedSpace))
+        if abs(got - exact) > 1e-6 * max(1, exact):
+            return f"unit-footprint boxes at {tuple(a.position)} (height {ha}) and {tuple(b.position)} (height {hb}): minimumDistanceTo = {got:.6g} but the exact gap of the solids is {exact:.6g}"
+        return None
+
+    reg.add(
+        C.Contract(
+            f"{OT}:Object.minimumDistanceTo",
+            params=dict(self=C.Const(None), other=C.Const(None)),
+            setup=setup,
+            post=post,
+            raises=[C.Raises("TypeError", mode="may")],
+            inline_all=True,
+            replay=replay,
+            properties=("C04",),
         )
     )
